@@ -49,3 +49,27 @@ Example C04_witness :
     find_matches 100 prog text true 0 0 0 = SOk [m1; m2] /\
     find_matches 100 prog text false 1 1 0 = SOk [m2] /\ mstart m2 = 2 /\ mnum m2 = 2.
 Proof. vm_compute. eexists. eexists. repeat split. Qed.
+
+(* The windows fit together: `top n` and `skip n` split the sequence between them; `skip s take t`
+   is `top t` of the `skip s` window; no window is longer than asked; a clause asking for at least
+   everything returns everything; `last n` is `skip (|A| - n)`. *)
+Theorem C04_windows_compose :
+  forall (fuel : nat) (prog : list instr) (text : bytes) (A : list mrec),
+    find_matches fuel prog text true 0 0 0 = SOk A ->
+    (forall n, exists T S,
+        find_matches fuel prog text false 0 n 0 = SOk T /\
+        find_matches fuel prog text true n 0 0 = SOk S /\
+        T ++ S = A /\ length T = Nat.min n (length A)) /\
+    (forall s t, exists S W,
+        find_matches fuel prog text true s 0 0 = SOk S /\
+        find_matches fuel prog text false s t 0 = SOk W /\
+        W = firstn t S /\ length W = Nat.min t (length A - s)) /\
+    (forall n, length A <= n ->
+        find_matches fuel prog text false 0 n 0 = SOk A /\
+        (1 <= n -> find_matches fuel prog text true 0 0 n = SOk A)) /\
+    (forall n, 1 <= n -> exists L,
+        find_matches fuel prog text true 0 0 n = SOk L /\
+        find_matches fuel prog text true (length A - n) 0 0 = SOk L /\
+        length L = Nat.min n (length A)).
+Proof. exact C04_windows_compose_lemma. Qed.
+Print Assumptions C04_windows_compose.
